@@ -28,11 +28,16 @@ RULE = ("cases = (format, api in {load(stride,frame), load_frame, iterload(chunk
         "residue numbers, velocities, MODEL/HETATM/TER, mdcrd title quirks); plus histories: sequences of partial loads sharing ONE "
         "Topology object (iterload abandoned after a chunk, two iterloads interleaved chunk by chunk, a suspended iterload with loads in "
         "between, a load after a failed load, a load of a file list followed by plain loads), every step compared with the same call made alone; "
+        "load([files]) also with discard_overlapping_frames over every overlap pattern of the junctions (file j+1 starts with the last frame of "
+        "file j or not), checked against spec_load_list_d in coqc, against md.join of the individual loads (bitwise) and frame by frame "
+        "in time and cell; dcd also as hand-written fixed-atom DCD (NAMNF > 0, with / without cell block); the alias extensions "
+        ".hdf5 .ncdf .netcdf .crd .stk run the same case mix at a smaller scope (T<=4 exhaustive); chunk=100 (default, larger than the file); "
         "thorough: exhaustive for T<=8, chunk 0..9, stride 1..4, skip 0..T (atom subset and file configuration rotate with the case); "
         "quick: fixed witnesses + seeded sample; a case is non-trivial when stride>1 or skip>0 or an atom subset "
         "or a frame is given; distinct by hash of the case")
 TRUSTED = ["translator in harness/props/C02.py (Python ast -> terms of coq/Load/Reflect.v for the pure-Python readers hdf5, netcdf, "
-           "mdcrd, xyz, lammpstrj, arc, gro and the load/iterload glue; the .pyx readers xtc, trr, dcd, dtr and load_pdb stay "
+           "mdcrd, xyz, lammpstrj, arc, gro and the load/iterload glue, terms of coq/Load/MultiReflect.v for md.load's tail, md.join and the "
+           "discard block of Trajectory.join; the .pyx readers xtc, trr, dcd, dtr and load_pdb stay "
            "hand-modelled and are tied by the correspondence only)",
            "harness/impl/load_impl.py (writes the files, maps frames/atoms/time/cell to identifiers, forks per batch)",
            "generator and verdict logic harness/props/C02.py; model-vs-implementation comparison is vm_compute inside coqc",
@@ -49,13 +54,20 @@ VNAME = {0: "arr_cur(h5)", 1: "arr_fix(h5)", 2: "nc", 3: "seq", 4: "xtc_cur", 5:
 FORMATS = {
     "h5": [1, 0], "nc": [2], "dcd": [3], "mdcrd": [3], "xyz": [3], "xyz.gz": [3], "lammpstrj": [3],
     "xtc": [5, 4], "trr": [5], "gro": [3, 10, 6], "dtr": [2, 7], "arc": [3, 10, 8], "pdb": [11, 9], "pdb.gz": [11, 9],
+    # the other registered extensions of the same readers (dispatch tables of trajectory.py / registry): same reader model
+    "hdf5": [1, 0], "ncdf": [2], "netcdf": [2], "crd": [3], "stk": [2, 7],
 }
+ALIASES = ("hdf5", "ncdf", "netcdf", "crd", "stk")       # smaller scope per run than the primary extensions
+# dispatch-by-extension variants (bits 2, 3 of the glue number, coq/Load/MultiModel.v disp_of), conforming first:
+# 4 = _parse_topology does not know the extension (md.load / iterload(chunk=0) refuse), 8 = no file class registered
+# for the extension (the streaming iterload refuses)
+DISPATCH = {"hdf5": [0, 4], "stk": [0, 8]}
 N_ATOMS = 4
 # configuration axes of the files themselves (rotated from case to case, never a full product):
 # atom counts (mdcrd writes 10 numbers per line, xtc switches codec above 9 atoms) x file written with / without unit cell
 CONFIGS = [(4, True), (10, False), (1, True), (20, True), (3, False), (13, True),
            (10, True), (4, False), (20, False), (13, False), (1, False), (3, True)]
-NEEDS_CELL = ("lammpstrj", "dtr")          # their writers refuse a trajectory without unit cell
+NEEDS_CELL = ("lammpstrj", "dtr", "stk")          # their writers refuse a trajectory without unit cell
 
 
 def ais_for(n):
@@ -83,13 +95,15 @@ def ais_for(n):
 # lammpstrj with atom lines in a different order in every frame / other column order, extra columns, xu yu zu;
 # xyz with varying comment lines, blanks, an extra column; gro with arbitrary residue/atom numbers, velocities and text
 # before t=; pdb with MODEL blocks, arbitrary serials / residue numbers, HETATM, TER; mdcrd with an empty / numeric title
-STYLES = {"lammpstrj": ["mdtraj", "shuffled", "columns"], "xyz": ["mdtraj", "hand"], "gro": ["mdtraj", "hand"],
+# dcd "fixed": a CHARMM/NAMD DCD with fixed atoms (NAMNF > 0: frame 0 stores every atom, later frames only the free half),
+# with / without the unit-cell block; mdtraj never writes one
+STYLES = {"dcd": ["mdtraj", "fixed"], "lammpstrj": ["mdtraj", "shuffled", "columns"], "xyz": ["mdtraj", "hand"], "gro": ["mdtraj", "hand"],
           "pdb": ["mdtraj", "hand"], "mdcrd": ["mdtraj", "title_empty", "title_numeric"]}
 
 
 def config(fmt, i):
     n, cell = CONFIGS[i % len(CONFIGS)]
-    if fmt in NEEDS_CELL or (fmt == "mdcrd" and n == 1):
+    if fmt in NEEDS_CELL or (fmt in ("mdcrd", "crd") and n == 1):
         # one-atom mdcrd without box is ambiguous in the format itself (a 3-number line looks like a box line)
         cell = True
     return n, cell
@@ -99,7 +113,8 @@ def config(fmt, i):
 _rot = itertools.count()
 
 
-def mk(fmt, kind, Ts, chunk=0, stride=1, skip=0, frame=None, ai=0, n_atoms=None, style=None, cell=None):
+def mk(fmt, kind, Ts, chunk=0, stride=1, skip=0, frame=None, ai=0, n_atoms=None, style=None, cell=None, overlaps=None,
+       discard=False):
     """ai = index into ais_for(n_atoms) (or an explicit list together with n_atoms); the file configuration rotates
     with every case that is built"""
     T = Ts[0]
@@ -112,15 +127,25 @@ def mk(fmt, kind, Ts, chunk=0, stride=1, skip=0, frame=None, ai=0, n_atoms=None,
     if style is None:
         sts = STYLES.get(fmt, ["mdtraj"])
         style = sts[(i // 2) % len(sts)]
-    if fmt in NEEDS_CELL or (fmt == "mdcrd" and n == 1):
+    bases = None
+    if overlaps is not None:
+        # file j+1 starts with the last frame of file j (overlap) or two identifiers further on (no overlap)
+        bases = [0]
+        for j in range(len(Ts) - 1):
+            bases.append(bases[-1] + Ts[j] - 1 if overlaps[j] else bases[-1] + Ts[j] + 1)
+        if style == "fixed":
+            style = "mdtraj"
+    if fmt in NEEDS_CELL or (fmt in ("mdcrd", "crd") and n == 1):
         cell = True
     if isinstance(ai, int):
         choices = ais_for(n)
         sel = choices[ai % len(choices)]
     else:
         sel = ai
+    if style == "fixed" and sel is not None and sel[0] >= max(1, n // 2):
+        sel = [0] + list(sel)          # fixed atoms never move: the first selected atom must be a free one (it identifies the frame)
     return {"fmt": fmt, "kind": kind, "Ts": list(Ts), "chunk": chunk, "stride": stride, "skip": skip, "frame": frame,
-            "ai": sel, "limit": T + 3, "n_atoms": n, "cell": cell, "style": style,
+            "ai": sel, "limit": T + 3, "n_atoms": n, "cell": cell, "style": style, "bases": bases, "discard": bool(discard),
             "isolate": bool(fmt == "trr" and stride > 1 and sel is not None)}
 
 
@@ -160,7 +185,7 @@ def witnesses():
     """the historical witnesses, always run first (10-frame files)"""
     out = []
     for fmt in FORMATS:
-        out += [mk(fmt, "iterload", [10], 3, 2, 0), mk(fmt, "iterload", [10], 2, 3, 1), mk(fmt, "iterload", [10], 4, 1, 10),
+        w = [mk(fmt, "iterload", [10], 3, 2, 0), mk(fmt, "iterload", [10], 2, 3, 1), mk(fmt, "iterload", [10], 4, 1, 10),
                 mk(fmt, "iterload", [10], 0, 2, 3, ai=2), mk(fmt, "iterload", [10], 5, 2, 0, ai=3),
                 mk(fmt, "load", [10], stride=3), mk(fmt, "load", [10], stride=3, ai=2),
                 mk(fmt, "load", [10], stride=4, frame=4), mk(fmt, "load_frame", [10], frame=4),
@@ -172,6 +197,17 @@ def witnesses():
                 mk(fmt, "iterload", [6], 2, 1, 0, ai=[0, 3, 6, 9], n_atoms=10),
                 mk(fmt, "load", [5], stride=2, ai=[2, 3, 4, 5, 6], n_atoms=10),
                 mk(fmt, "load_list", [2, 3], stride=1, ai=list(range(13)), n_atoms=13)]
+        out += w[:11] if fmt in ALIASES else w
+        # lists whose files share a frame at a junction (restart-style), with / without discard_overlapping_frames;
+        # with a stride a junction is discarded exactly when both of its frames are loaded; default-sized chunk
+        w = [mk(fmt, "load_list", [4, 3, 4], stride=1, overlaps=[True, True], discard=True, ai=0),
+             mk(fmt, "load_list", [4, 3, 4], stride=2, overlaps=[True, True], discard=True, ai=3),
+             mk(fmt, "load_list", [3, 1, 2], stride=1, overlaps=[True, False], discard=True, ai=1),
+             mk(fmt, "load_list", [4, 3, 4], stride=1, overlaps=[True, True], discard=False, ai=2),
+             mk(fmt, "load_list", [5, 3], stride=2, overlaps=[True], discard=True, ai=0),
+             mk(fmt, "load_list", [2, 2, 3], stride=1, overlaps=[False, False], discard=True, ai=4),
+             mk(fmt, "iterload", [7], 100, 2, 1, ai=4)]
+        out += w[:3] if fmt in ALIASES else w
         for sty in STYLES.get(fmt, [])[1:]:
             out += [mk(fmt, "load", [6], stride=1, ai=[1, 4, 5, 10], n_atoms=13, style=sty),
                     mk(fmt, "iterload", [7], 3, 1, 0, ai=[0, 2, 12], n_atoms=13, style=sty),
@@ -186,7 +222,7 @@ def exhaustive(fmts=None, Tmax=8):
     out = []
     rot = itertools.count()
     for fmt in (fmts or FORMATS):
-        for T in range(1, Tmax + 1):
+        for T in range(1, (min(Tmax, 4) if fmt in ALIASES else Tmax) + 1):
             for c in range(0, 10):
                 for s in range(1, 5):
                     for k in range(0, T + 1):
@@ -203,18 +239,24 @@ def exhaustive(fmts=None, Tmax=8):
             for Ts in itertools.product(sizes, repeat=n):
                 for s in (1, 2, 3):
                     out.append(mk(fmt, "load_list", list(Ts), stride=s, ai=next(rot)))
+        # discard_overlapping_frames: every overlap pattern of the junctions
+        for n in (2, 3):
+            for Ts in itertools.product([1, 2, 4], repeat=n):
+                for s in (1, 2):
+                    for ov in itertools.product([False, True], repeat=n - 1):
+                        out.append(mk(fmt, "load_list", list(Ts), stride=s, ai=next(rot), overlaps=list(ov), discard=True))
     return out
 
 
 def sampled(rng, per_fmt):
     out = []
     for fmt in FORMATS:
-        for _ in range(per_fmt):
+        for _ in range(per_fmt if fmt not in ALIASES else max(6, per_fmt // 3)):
             T = rng.choice([1, 2, 3, 4, 5, 6, 7, 8, 8, 9])
             ai = rng.randrange(1000)
             r = rng.random()
             if r < 0.6:
-                c = rng.choice([0, 1, 1, 2, 3, 3, 4, 5, 6, 7, T, T + 1, 9])
+                c = rng.choice([0, 1, 1, 2, 3, 3, 4, 5, 6, 7, T, T + 1, 9, 100])
                 out.append(mk(fmt, "iterload", [T], c, rng.randint(1, 4), rng.randint(0, T), ai=ai))
             elif r < 0.75:
                 out.append(mk(fmt, "load", [T], stride=rng.randint(1, 4), ai=ai))
@@ -222,16 +264,20 @@ def sampled(rng, per_fmt):
                 out.append(mk(fmt, "load", [T], stride=rng.randint(1, 4), frame=rng.randrange(T), ai=ai))
             elif r < 0.9:
                 out.append(mk(fmt, "load_frame", [T], frame=rng.randrange(T), ai=ai))
-            else:
+            elif r < 0.95:
                 n = rng.randint(1, 3)
                 out.append(mk(fmt, "load_list", [rng.randint(1, 5) for _ in range(n)], stride=rng.randint(1, 3), ai=ai))
+            else:
+                n = rng.randint(2, 4)
+                out.append(mk(fmt, "load_list", [rng.randint(1, 5) for _ in range(n)], stride=rng.choice([1, 1, 2, 3]), ai=ai,
+                              overlaps=[rng.random() < 0.6 for _ in range(n - 1)], discard=rng.random() < 0.8))
     return out
 
 
 def build_cases(ctx):
     cases = witnesses()
     if ctx.tier == "quick":
-        cases += sampled(ctx.rng, 45)
+        cases += sampled(ctx.rng, 36)
     else:
         cases += exhaustive() + sampled(ctx.rng, 60)
         for fmt in HFMTS:
@@ -251,9 +297,10 @@ KIND = {"load": 0, "load_frame": 1, "iterload": 2, "load_list": 3}
 
 def coq_case(c, v, g):
     fr = "None" if c["frame"] is None else "(Some %s)" % cnat(c["frame"])
-    return "(mkcase %s %s %s %s %s %s %s %s %s %s)" % (
+    return "(mkcase2 (mkcase %s %s %s %s %s %s %s %s %s %s) %s %s)" % (
         cnat(v), cnat(g), cnat(KIND[c["kind"]]), clist([cnat(t) for t in c["Ts"]]), cnat(c["chunk"]), cnat(c["stride"]),
-        cnat(c["skip"]), fr, "true" if c["ai"] is not None else "false", cnat(c["limit"] + 1))
+        cnat(c["skip"]), fr, "true" if c["ai"] is not None else "false", cnat(c["limit"] + 1),
+        clist([cnat(b) for b in (c.get("bases") or [])]), "true" if c.get("discard") else "false")
 
 
 def coq_frames(fo):
@@ -285,11 +332,13 @@ def path_of(c):
 
 def glue_choices(c):
     p = path_of(c)
-    if p == "chunk0":
-        return [0, 1]
-    if p == "pdbiter":
-        return [0, 2]
-    return [0]
+    gs = [0, 1] if p == "chunk0" else [0, 2] if p == "pdbiter" else [0]
+    return [g | db for db in DISPATCH.get(c["fmt"], [0]) for g in gs]
+
+
+def glue_orders(fmt, gs=(3, 1, 2, 0)):
+    """(glue | dispatch) numbers to try for a format: conforming dispatch first, repaired glue first"""
+    return [g | db for db in DISPATCH.get(fmt, [0]) for g in gs]
 
 
 def flat(r):
@@ -321,8 +370,12 @@ def spec_flat(c):
     fl = 1 if c["ai"] is not None else 0
     if c["kind"] == "load_list":
         out = []
+        bases = c.get("bases") or [10 * j for j in range(len(c["Ts"]))]
         for j, T in enumerate(c["Ts"]):
-            out += [(10 * j + i, fl) for i in range(0, T, c["stride"])]
+            seg = [(bases[j] + i, fl) for i in range(0, T, c["stride"])]
+            if c.get("discard") and out and seg and out[-1] == seg[0]:
+                out.pop()
+            out += seg
         return out
     T = c["Ts"][0]
     if c["kind"] == "load_frame" or (c["kind"] == "load" and c["frame"] is not None):
@@ -360,7 +413,7 @@ def run_cases(ctx, cases, replaying=False):
             for stp in c["steps"]:
                 cases.append(dict(stp, from_history=True))
                 hist_steps[hi].append(len(cases) - 1)
-    workers = 4
+    workers = 3
     res = ctx.run_impl("load_impl.py", {"workers": workers, "cases": cases, "probe_trr": True}, timeout=3000)
     outs = res["results"]
     ctx.log("implementation ran %d cases" % len(cases))
@@ -400,7 +453,7 @@ def run_cases(ctx, cases, replaying=False):
     bad, errs = [], []
     B = 3200
     for off in range(0, len(coqcases), B):
-        b, e = ctx.coq_mismatches(["MD.Load.Model"], ("xcase", "outcome"), "outcome_eqb", "run_case",
+        b, e = ctx.coq_mismatches(["MD.Load.Model", "MD.Load.MultiModel"], ("xcase2", "outcome"), "outcome_eqb", "run_case2",
                                   coqcases[off:off + B])
         bad += [off + i for i in b]
         errs += e
@@ -416,7 +469,7 @@ def run_cases(ctx, cases, replaying=False):
         c = cases[ci]
         if v == SPEC:
             return (ci, SPEC, 0) not in badset
-        gg = g & (1 if path_of(c) == "chunk0" else 2 if path_of(c) == "pdbiter" else 0)
+        gg = (g & (1 if path_of(c) == "chunk0" else 2 if path_of(c) == "pdbiter" else 0)) | (g & 12)
         return (ci, v, gg) not in badset
 
     # 1. the tie: per format one (reader variant, glue) reproduces the implementation on ALL its cases
@@ -427,7 +480,7 @@ def run_cases(ctx, cases, replaying=False):
             continue
         choice = None
         for v in variants + [SPEC]:
-            for g in (3, 1, 2, 0):
+            for g in glue_orders(fmt):
                 if all(ok(i, v, g) for i in idx):
                     choice = (v, g)
                     break
@@ -437,7 +490,7 @@ def run_cases(ctx, cases, replaying=False):
         if choice is None:
             def nbad(vg):
                 return sum(not ok(i, vg[0], vg[1]) for i in idx)
-            worst = min(((v, g) for v in variants for g in (0, 1, 2, 3)), key=nbad)
+            worst = min(((v, g) for v in variants for g in glue_orders(fmt, (0, 1, 2, 3))), key=nbad)
             ex = sorted([i for i in idx if not ok(i, worst[0], worst[1])], key=lambda i: len(str(cases[i])))
             ctx.break_("correspondence:load-model[%s]" % fmt,
                        "no model variant of %s reproduces the implementation; closest %s/glue%d fails on %d cases, e.g. %s -> %s"
@@ -450,6 +503,9 @@ def run_cases(ctx, cases, replaying=False):
         s = "%s + chunk0_%s" % (VNAME[vg[0]], "fix" if vg[1] & 1 else "cur")
         if f in ("pdb", "pdb.gz"):
             s += " + pdbiter_%s" % ("fix" if vg[1] & 2 else "cur")
+        if f in DISPATCH:
+            s += " + dispatch_%s" % ({0: "conforming", 4: "cur(extension unknown to _parse_topology)",
+                                      8: "cur(no file class registered)"}.get(vg[1] & 12, vg[1] & 12))
         return s
     ctx.notes.setdefault("coverage_extra", {})["model_variant_matching_impl"] = {
         f: vgname(f, vg) for f, vg in explained.items()}
@@ -459,7 +515,7 @@ def run_cases(ctx, cases, replaying=False):
         if c.get("probe"):
             continue
         ctx.count({k: c.get(k) for k in ("fmt", "kind", "Ts", "chunk", "stride", "skip", "frame", "ai", "n_atoms", "cell", "style",
-                                         "template", "events")},
+                                         "template", "events", "bases", "discard")},
                   nontrivial=nontrivial(c), bucket="%s/%s" % (c["fmt"], c["kind"]))
         cfgs = ctx.notes.setdefault("coverage_extra", {}).setdefault("file_configurations", {})
         ck = "%s atoms=%s cell=%s style=%s" % (c["fmt"], c.get("n_atoms", N_ATOMS), c.get("cell", True), c.get("style", "mdtraj"))
@@ -483,13 +539,15 @@ def run_cases(ctx, cases, replaying=False):
             # attribution is per case (so that a replay of this case alone gives the same verdict): the
             # variant chosen for the format if it reproduces this case, else the first acceptable one that does
             who = None
-            order = ([vg] if vg is not None else []) + [(v, g) for v in FORMATS[fmt] for g in (3, 1, 2, 0)]
+            order = ([vg] if vg is not None else []) + [(v, g) for v in FORMATS[fmt] for g in glue_orders(fmt)]
             for v, g in order:
                 if v == SPEC or not ok(ci, v, g):
                     continue
-                if p == "chunk0" and not (g & 1) and not ok(ci, v, 1):
+                if (g & 12) and not ok(ci, v, g & 3):
+                    who = "dispatch_cur"
+                elif p == "chunk0" and not (g & 1) and not ok(ci, v, 1 | (g & 12)):
                     who = "chunk0_cur"
-                elif p == "pdbiter" and not (g & 2) and not ok(ci, v, 2):
+                elif p == "pdbiter" and not (g & 2) and not ok(ci, v, 2 | (g & 12)):
                     who = "pdbiter_cur"
                 else:
                     who = VNAME[v]
@@ -503,6 +561,11 @@ def run_cases(ctx, cases, replaying=False):
         if diverged:
             continue
         trajs = [r["traj"]] if "traj" in r else r.get("chunks", [])
+        if r.get("join_bad"):
+            # model-free oracle of the last clause: md.load([..], **kw) vs md.join([md.load(f, **kw) for f in ..]) field by field
+            ctx.fail("%s load_list: loading a list of files differs from joining the individual loads" % fmt, c,
+                     observed=r["join_bad"], expected="xyz, time, unit cell and topology of md.join of the individual loads",
+                     tags={"fmt": fmt, "api": c["kind"], "kind": "list_differs_from_join", "discard": bool(c.get("discard"))})
         for t in trajs:
             for name, key in (("time", "time_bad"), ("cell", "cell_bad")):
                 if t.get(key):
@@ -551,7 +614,7 @@ def check_histories(ctx, cases, outs, hist_steps):
                            "stale_subset_override": True})
 
 
-READER_OF_FMT = {"h5": "hdf5", "nc": "netcdf", "mdcrd": "mdcrd", "xyz": "xyz", "xyz.gz": "xyz", "lammpstrj": "lammpstrj",
+READER_OF_FMT = {"hdf5": "hdf5", "ncdf": "netcdf", "netcdf": "netcdf", "crd": "mdcrd", "h5": "hdf5", "nc": "netcdf", "mdcrd": "mdcrd", "xyz": "xyz", "xyz.gz": "xyz", "lammpstrj": "lammpstrj",
                  "arc": "arc", "gro": "gro"}
 FAM_CLASS = {"FArr true": "slice", "FNc": "slice", "FSeq": "seq", "FSeqNoSeek": "seq_noseek"}
 VARIANT_CLASS = {1: "slice", 2: "slice", 3: "seq", 10: "seq_noseek", SPEC: None}
@@ -624,7 +687,7 @@ def search(ctx, broken):
             fmts.add(m.group(1))
     if ctx.tier != "quick" and fmts:
         return          # the thorough tier has already enumerated the scope
-    cases = exhaustive(sorted(fmts) or None, Tmax=5 if fmts else 4)
+    cases = exhaustive(sorted(fmts) or [f for f in FORMATS if f not in ALIASES], Tmax=5 if fmts else 4)
     ctx.log("search: %d cases on %s" % (len(cases), sorted(fmts) or "all formats"))
     n0 = len(ctx.broken)
     run_cases(ctx, cases)
@@ -1323,11 +1386,122 @@ def tr_load_multi(fn):
     return "(mkmterm %s %s %s)" % (b(same), b(order), b(join))
 
 
+# ---- list loading: md.load tail, md.join, Trajectory.join's discard block -> lterm / jterm (coq/Load/MultiReflect.v) --------
+def _xyz_index(n):
+    """trajectories[<who>].xyz[<k>] -> (who, k) with who in {'i', 'i + 1'}"""
+    if isinstance(n, ast.Subscript) and isinstance(n.value, ast.Attribute) and n.value.attr == "xyz" \
+            and isinstance(n.value.value, ast.Subscript) and _dotted(n.value.value.value) == "trajectories":
+        who = ast.unparse(n.value.value.slice)
+        try:
+            k = ast.literal_eval(n.slice)
+        except Exception:
+            raise Outside("join: frame index %s" % ast.unparse(n.slice))
+        return who, k
+    raise Outside("join: %s is not trajectories[..].xyz[..]" % ast.unparse(n))
+
+
+def tr_join_term(tree):
+    fn = _method(tree, "Trajectory", "join")
+    blocks = [n for n in ast.walk(fn) if isinstance(n, ast.If) and ast.unparse(n.test) == "discard_overlapping_frames"]
+    tests = [n for n in ast.walk(fn) if isinstance(n, ast.If) and "2e-3" in ast.unparse(n.test).replace("0.002", "2e-3")]
+    if len(tests) != 1:
+        raise Outside("join: %d overlap tests" % len(tests))
+    test = tests[0]
+    guarded = any(test in list(ast.walk(b)) for b in blocks)
+    loops = [n for n in ast.walk(fn) if isinstance(n, ast.For) and test in list(ast.walk(n))]
+    if len(loops) != 1 or ast.unparse(loops[0].iter) != "range(len(trajectories) - 1)" or ast.unparse(loops[0].target) != "i":
+        raise Outside("join: loop over the junctions")
+    names = {}
+    for st in loops[0].body:
+        if isinstance(st, ast.Assign) and isinstance(st.targets[0], ast.Name):
+            try:
+                names[st.targets[0].id] = _xyz_index(st.value)
+            except Outside:
+                pass
+    t = test.test
+    # np.all(np.abs(x1 - x0) < 2e-3)
+    if not (isinstance(t, ast.Call) and _dotted(t.func) in ("np.all", "np.any", "numpy.all", "numpy.any") and len(t.args) == 1):
+        raise Outside("join: overlap test %s" % ast.unparse(t))
+    j_all = _dotted(t.func).endswith(".all")
+    cmp_ = t.args[0]
+    if not (isinstance(cmp_, ast.Compare) and len(cmp_.ops) == 1 and isinstance(cmp_.ops[0], ast.Lt)
+            and isinstance(cmp_.comparators[0], ast.Constant)):
+        raise Outside("join: comparison %s" % ast.unparse(cmp_))
+    thr = int(round(float(cmp_.comparators[0].value) * 1e4))
+    lhs = cmp_.left
+    j_abs = isinstance(lhs, ast.Call) and _dotted(lhs.func) in ("np.abs", "numpy.abs", "abs", "np.absolute") and len(lhs.args) == 1
+    diff = lhs.args[0] if j_abs else lhs
+    if not (isinstance(diff, ast.BinOp) and isinstance(diff.op, ast.Sub)):
+        raise Outside("join: difference %s" % ast.unparse(diff))
+    ops = []
+    for side in (diff.left, diff.right):
+        if isinstance(side, ast.Name) and side.id in names:
+            ops.append(names[side.id])
+        else:
+            ops.append(_xyz_index(side))
+    by = dict(ops)
+    if set(by) != {"i", "i + 1"}:
+        raise Outside("join: the test does not compare trajectories[i] with trajectories[i + 1]")
+    fr = lambda k: {-1: "JLast", 0: "JFirst"}.get(k, "JOther")   # noqa: E731
+    # the trimming statement
+    trims = [st for st in test.body if isinstance(st, ast.Assign)]
+    trim = "TrimOther"
+    if len(trims) == 1 and len(test.body) == 1 and not test.orelse:
+        src = ast.unparse(trims[0]).replace(" ", "")
+        if src == "trajectories[i]=trajectories[i][:-1]":
+            trim = "TrimLeftLast"
+        elif src == "trajectories[i+1]=trajectories[i+1][1:]":
+            trim = "TrimRightFirst"
+    b = lambda x: "true" if x else "false"   # noqa: E731
+    return "(mkjterm %s %s %s %s %d %s %s)" % (fr(by["i"]), fr(by["i + 1"]), b(j_abs), b(j_all), thr, trim, b(guarded))
+
+
+def tr_load_list_term(tree):
+    fn = _function(tree, "load")
+    loop = None
+    for st in ast.walk(fn):
+        if isinstance(st, ast.For) and ast.unparse(st.iter) == "filename_or_filenames" \
+                and any(isinstance(n, ast.Call) and _dotted(n.func) == "loader" for n in ast.walk(st)):
+            loop = st
+    if loop is None:
+        raise Outside("load: no loop over the remaining files")
+    lsrc = [ast.unparse(x) for x in loop.body]
+    same = "t = loader(f, **kwargs)" in lsrc and "(mkmterm true" in tr_load_multi(fn)
+    order = "trajectories.append(t)" in lsrc and "trajectories.insert" not in ast.unparse(fn)
+    rets = [n for n in ast.walk(fn) if isinstance(n, ast.Return) and isinstance(n.value, ast.Call) and _dotted(n.value.func) == "join"]
+    joined = len(rets) == 1 and rets[0].value.args and _dotted(rets[0].value.args[0]) == "trajectories"
+    passed = joined and _kw_passed(rets[0].value, "discard_overlapping_frames")
+    # the parameter must reach the call unchanged
+    for n in ast.walk(fn):
+        if isinstance(n, (ast.Assign, ast.AugAssign)):
+            tg = n.targets[0] if isinstance(n, ast.Assign) else n.target
+            if _dotted(tg) == "discard_overlapping_frames":
+                passed = False
+    # md.join: functools.reduce(lambda x, y: x.join(y, ..., discard_overlapping_frames=discard_overlapping_frames), trajs)
+    jf = _function(tree, "join")
+    jb = _strip_doc(jf.body)
+    left = False
+    if len(jb) == 1 and isinstance(jb[0], ast.Return) and isinstance(jb[0].value, ast.Call) \
+            and _dotted(jb[0].value.func) in ("functools.reduce", "reduce") and len(jb[0].value.args) == 2 \
+            and isinstance(jb[0].value.args[0], ast.Lambda) and _dotted(jb[0].value.args[1]) == "trajs":
+        lam = jb[0].value.args[0]
+        a = [x.arg for x in lam.args.args]
+        c = lam.body
+        if len(a) == 2 and isinstance(c, ast.Call) and _dotted(c.func) == a[0] + ".join" and len(c.args) == 1 \
+                and _dotted(c.args[0]) == a[1]:
+            left = True
+            passed = passed and _kw_passed(c, "discard_overlapping_frames")
+    else:
+        raise Outside("join: not a single functools.reduce")
+    b = lambda x: "true" if x else "false"   # noqa: E731
+    return "(mkmlterm %s %s %s %s %s)" % (b(same), b(order), b(bool(joined)), b(bool(passed)), b(left))
+
+
 def build_gen(repo=None):
     info = {"translated": [], "degraded": {}}
     lines = ["(* GENERATED by harness/props/C02.py from the mdtraj sources on every run. Do not edit. *)",
              "From Coq Require Import List Bool.", "Import ListNotations.",
-             "Require Import MD.Load.Model MD.Load.Reflect MD.Load.Reference.", ""]
+             "Require Import MD.Load.Model MD.Load.Reflect MD.Load.Reference MD.Load.MultiModel MD.Load.MultiReflect.", ""]
     for key, rel, cls, meth, loader, kind, fams in READERS:
         try:
             tree = ast.parse(_src(rel))
@@ -1368,6 +1542,16 @@ def build_gen(repo=None):
     except (Outside, SyntaxError, OSError) as e:
         info["degraded"]["load_multi"] = str(e)
         lines.append("Definition load_multi : mterm := Reference.load_multi.  (* degraded: %s *)" % str(e).replace("*", "x")[:120])
+    for name, ty, ref, fnc in (("join_term", "jterm", "ref_jterm", tr_join_term), ("load_list_term", "mlterm", "ref_mlterm", tr_load_list_term)):
+        try:
+            tree = ast.parse(_src("mdtraj/core/trajectory.py"))
+            lines.append("Definition %s : %s := %s." % (name, ty, fnc(tree)))
+            info["translated"].append(name)
+        except (Outside, SyntaxError, OSError) as e:
+            info["degraded"][name] = str(e)
+            lines.append("Definition %s : %s := %s.  (* degraded: %s *)" % (name, ty, ref, str(e).replace("*", "x")[:120]))
+    lines += ["Lemma join_term_ok : check_join join_term = true.\nProof. vm_compute. reflexivity. Qed.",
+              "Lemma load_list_term_ok : check_list load_list_term = true.\nProof. vm_compute. reflexivity. Qed."]
     lines += ["Lemma iterload_glue_ok : check_glue iterload_glue = true.\nProof. vm_compute. reflexivity. Qed.",
               "Lemma iterload_chunk0_ok : check_glue0 iterload_glue = true.\nProof. vm_compute. reflexivity. Qed.",
               "Lemma iterload_pdb_ok : check_gluepdb iterload_glue = true.\nProof. vm_compute. reflexivity. Qed.",
